@@ -126,6 +126,22 @@ def gen_ops(tier, rng):
                 frames.append(bytes([t | (7 - len(chunk)) << 1 | int(7 * i + 7 >= n)]) + chunk.ljust(7, b"\0"))
             yield (f"srvx {ods} - {','.join(c04.hx(f) for f in frames)} "
                    f"{abort_hex(0x2200, 3, CODES['toggle'])}")
+        # the same after a history: an earlier transfer with an odd number of segments (completed or abandoned),
+        # then a new transfer (download with / without size indication, upload) whose FIRST segment has toggle 1
+        if n > 7:
+            pre_up = [bytes([0x40]) + mux(0x2200, 3) + bytes(4)] + seg_up_frames(0, -1)          # one segment, left open
+            pre_dn = [bytes([0x21]) + mux(0x2200, 3) + (5).to_bytes(4, "little"),
+                      bytes([0x00 | (2 << 1) | 1]) + val[:5].ljust(7, b"\0")]                      # one segment, complete
+            for pre in (pre_up, pre_dn):
+                for init in (bytes([0x21]) + mux(0x2200, 3) + n.to_bytes(4, "little"),
+                             bytes([0x20]) + mux(0x2200, 3) + bytes(4)):
+                    seg = bytes([0x10 | (7 - min(n, 7)) << 1 | int(n <= 7)]) + val[:7].ljust(7, b"\0")
+                    frames = pre + [init, seg]
+                    yield (f"srvx {ods} - {','.join(c04.hx(f) for f in frames)} "
+                           f"{abort_hex(0x2200, 3, CODES['toggle'])}")
+                frames = pre + [bytes([0x40]) + mux(0x2200, 3) + bytes(4), bytes([0x70]) + bytes(7)]
+                yield (f"srvx {ods} - {','.join(c04.hx(f) for f in frames)} "
+                       f"{abort_hex(0x2200, 3, CODES['toggle'])}")
         # unknown / unsupported command in the middle of a transfer names the running multiplexer
         for cs in (0xE0, 0xFF, 0xC0, 0xC2, 0xE1):
             frames = [bytes([0x40]) + mux(0x2200, 3) + bytes(4), bytes([cs]) + bytes(rng.getrandbits(8) for _ in range(7))]
